@@ -260,9 +260,10 @@ class CheckRun:
             print(f"HARNESS-ERROR {self.prop}: {len(self.harness_errors)} unit(s) failed inside the harness")
             for e in self.harness_errors[:3]:
                 print(e)
-            return 2
         if new:
             return 1
+        if self.harness_errors:
+            return 2
         if guard_fail:
             print(f"HARNESS-ERROR {self.prop}: vacuity guard(s) at zero: {guard_fail}")
             return 2
